@@ -231,7 +231,7 @@ class NInterp(sym.Interp):
         if name in LIST_PASS or name in ("row_iter", "column_iter", "column", "row", "set_column", "set_row", "enumerate", "skip", "take", "rev",
                                           "zip", "map", "len", "ncols", "nrows", "collect", "push", "norm", "norm_squared", "column_iter_mut",
                                           "row_iter_mut", "fill", "dot", "fold", "sum", "scale", "component_mul", "clone_owned", "into_owned", "back", "front",
-                                          "push_back", "pop_front", "clear", "is_empty", "clone", "copy_from", "range"):
+                                          "push_back", "pop_front", "clear", "is_empty", "clone", "copy_from", "range", "zip_map"):
             recv = self.ev(n["recv"])
             r = self.container_method(n, name, recv)
             if r is not NotImplemented:
@@ -256,6 +256,22 @@ class NInterp(sym.Interp):
                 return MatVal(1, v.ncols, [list(v.rows[i])])
             if name in ("clone", "clone_owned", "into_owned"):
                 return v
+            if name in ("map", "zip_map") and "nalgebra" in (n.get("def") or ""):
+                fn = n["args"][-1]
+                other = self.ev(n["args"][0]) if name == "zip_map" else None
+                if name == "zip_map" and not (isinstance(other, MatVal) and (other.nrows, other.ncols) == (v.nrows, v.ncols)):
+                    raise sym.Unsupported(n, "zip_map with %r" % (other,))
+
+                def f(*xs):
+                    if fn.get("k") == "Closure":
+                        return self.apply_closure(sym.ClosureVal(fn, None), list(xs), n)
+                    fp = peel(fn)
+                    if fp.get("k") == "Path" and fp["def"].split("::")[-1] in sym.TRANSPARENT_CALLS and len(xs) == 1:
+                        return xs[0]
+                    raise sym.Unsupported(n, "map with %s" % pp(fn)[:40])
+                if other is None:
+                    return MatVal(v.nrows, v.ncols, [[f(x) for x in r] for r in v.rows])
+                return MatVal(v.nrows, v.ncols, [[f(x, y) for x, y in zip(r, q)] for r, q in zip(v.rows, other.rows)])
             if name == "len":
                 return sp.Integer(v.nrows * v.ncols)
             if name == "ncols":
